@@ -286,6 +286,9 @@ def run(ctx):
                   "the threshold in bytes is computed exactly (at most one truncating division, as the last step)",
                   "'%s' divides before it multiplies: 'N%%' of a total that is not a multiple of the divisor comes out too low and a cgroup exactly at the "
                   "threshold passes the 'above threshold' filter" % pp.text(pp.nodes[i]["r"])[:80])
+    # the common ranking helper orders by (preference, key): inside a preference class the documented metric decides
+    from .C03 import ranking_comparator
+    ranking_comparator(ctx)
     # min_growth_ratio_ destination is floating
     kc = P.classes.get("Oomd::KillMemoryGrowth<Oomd::BaseKillPlugin>") or next((c for q, c in P.classes.items() if q.startswith("Oomd::KillMemoryGrowth")), None)
     if kc:
